@@ -147,7 +147,8 @@ func c04Rotate(pre, post *smState, err error) (string, string) {
 			return "C04/small-blind-not-previous-big-blind-seat", fmt.Sprintf("%d dealt in: sb seat %d, previous bb seat %d", nact, s1, b0)
 		}
 		fromHU := d0 == s0
-		wrap := s0 == b1
+		// the big blind wrapped round to, or past, the previous small-blind seat: the previous ring has collapsed
+		wrap := s0 == b1 || strictlyBetween(n, b0, b1, s0)
 		released := false
 		for q := 0; q < n; q++ {
 			if liv(pre.SeatData[q]) && !act(pre.SeatData[q]) && strictlyBetween(n, s0, b1, q) && act(post.SeatData[q]) {
@@ -164,6 +165,9 @@ func c04Rotate(pre, post *smState, err error) (string, string) {
 		}
 		if d1 == s1 || d1 == b1 || s1 == b1 {
 			return "C04/button-seats-not-distinct", fmt.Sprintf("%d dealt in but dealer/sb/bb = %d/%d/%d", nact, d1, s1, b1)
+		}
+		if !strictlyBetween(n, d1, b1, s1) {
+			return "C04/button-seats-out-of-order", fmt.Sprintf("%d dealt in: clockwise from the dealer seat %d the big-blind seat %d comes before the small-blind seat %d", nact, d1, b1, s1)
 		}
 	}
 	return "", ""
@@ -450,7 +454,7 @@ func init() {
 			"every case is non-trivial (it judges rotations); distinct = (seat count, rule) for BFS cases, seed for walks",
 		Assumptions: []string{
 			"who is dealt in (the Active set after the rotation) is taken as observed - C05 judges waiting",
-			"a ring whose previous small-blind seat is also the new big-blind seat, or whose waiting players had to be released, is judged like the statement's from-heads-up case (dealer = nearest live seat before the small blind): 'dealer = previous small-blind seat' and 'three distinct seats' cannot both hold there",
+			"a ring whose previous small-blind seat is also the new big-blind seat, or whose waiting players had to be released, is judged like the statement's from-heads-up case (dealer = nearest live seat before the small blind): 'dealer = previous small-blind seat' and 'three distinct seats in the order dealer, small blind, big blind' cannot both hold there; 'collapsed' also covers a big blind that moved past the previous small-blind seat",
 			"only dealt-in players can bust",
 		},
 		Cases: func(tier string) int { pl := c04PlanFor(tier); return len(pl.bfs) + pl.walks },
